@@ -1,8 +1,46 @@
-(* C07: in Coq a definition is a function, so "same input, same output" needs no theorem; what can fail in
-   a faithful model is dependence on the process-global container counter and on identifier values. The
-   equivariance theorems are added when Proofs/EquivarianceFacts.v is merged. *)
+(* C07 Runs are reproducible and every policy is evaluated on the same workload.
+   In Coq every definition is a function, so "same input, same output" needs no theorem. What CAN fail in a
+   faithful model is dependence on where the process-global container counter (Container.next_container_num)
+   stands when a simulation starts: ids are dictionary keys and appear in suspend commands. These theorems
+   show it does not matter, for every shipped policy and every workload. Statements only; proofs are
+   [exact <lemma of Proofs/EquivarianceFacts.v>]. The rest of C07 (hash seeds, identifier values, numpy
+   seeds) is decided by the multi-process correspondence (harness/props/C07.py). *)
 From Coq Require Import List ZArith QArith.
-From Eudoxia Require Import Model.Simulator.
-Example C07_placeholder : percentile99 nil = None.
-Proof. reflexivity. Qed.
-Print Assumptions C07_placeholder.
+Import ListNotations.
+From Eudoxia Require Import Model.Types Model.Lifecycle Model.Container Model.Pool Model.Executor Model.Sched
+  Model.Simulator Proofs.EquivarianceFacts.
+Close Scope Q_scope.
+Close Scope Z_scope.
+
+(* two runs of the same configuration and workload whose container counters start at k1 and k2: same error
+   (or none), the same canonical event log (ids renumbered from the start value), the same statistics *)
+Theorem C07_counter_independence : forall C a npools cpu ram tick arrivals k1 k2 d,
+  forall sf1 logs1 e1 sf2 logs2 e2,
+    sim_run C a tick (init_sim_at C npools cpu ram k1) arrivals = (sf1, logs1, e1) ->
+    sim_run C a tick (init_sim_at C npools cpu ram k2) arrivals = (sf2, logs2, e2) ->
+    e1 = e2 /\
+    map (canon_log k1) logs1 = map (canon_log k2) logs2 /\
+    final_stats C d sf1 = final_stats C d sf2.
+Proof. exact cid_independence. Qed.
+Print Assumptions C07_counter_independence.
+
+Theorem C07_counter_equivariance : forall C a npools cpu ram tick arrivals k d,
+  forall sf logs e sf' logs' e',
+    sim_run C a tick (init_sim C npools cpu ram) arrivals = (sf, logs, e) ->
+    sim_run C a tick (init_sim_at C npools cpu ram k) arrivals = (sf', logs', e') ->
+    e' = e /\
+    logs' = map (shift_log k) logs /\
+    map (canon_log k) logs' = logs /\
+    sf' = shift_sim k sf /\
+    final_stats C d sf' = final_stats C d sf.
+Proof. exact cid_equivariance. Qed.
+Print Assumptions C07_counter_equivariance.
+
+(* executor level, arbitrary commands (custom schedulers): a whole run commutes with the id shift *)
+Theorem C07_exec_run_shift : forall C k cmds s,
+  exec_run C (shift_estate k s) (map (shift_cmd k) cmds) = map_res (sh_erun k) (exec_run C s cmds).
+Proof. exact exec_run_shift. Qed.
+Print Assumptions C07_exec_run_shift.
+
+Example C07_witness : forall C, init_sim_at C 2 4%Z 8%Q 0 = init_sim C 2 4%Z 8%Q.
+Proof. intros. reflexivity. Qed.
